@@ -108,7 +108,9 @@ crypto_sign_ed25519(unsigned char *sm, unsigned long long *smlen_p,
 {
     unsigned long long siglen;
 
-    memmove(sm + crypto_sign_ed25519_BYTES, m, mlen);
+    if (mlen > 0U) {
+        memmove(sm + crypto_sign_ed25519_BYTES, m, mlen);
+    }
     /* LCOV_EXCL_START */
     if (crypto_sign_ed25519_detached(
             sm, &siglen, sm + crypto_sign_ed25519_BYTES, mlen, sk) != 0 ||
